@@ -2,7 +2,7 @@
     configuration changes, flush, searches) on the model and compares with what
     the real logging stage, query log and statistics recorded / reported. *)
 From AGH Require Import Base.Run.
-From AGH Require Export Model.ClientIndex Model.LogPolicy.
+From AGH Require Export Model.ClientIndex Model.IgnoreEngine Model.LogPolicy.
 Local Open Scope N_scope.
 
 (** The harness prints persistent clients with the fields the logging stage can
@@ -20,14 +20,20 @@ Inductive sev :=
   (* PUT /control/querylog/config/update; observed afterwards: enabled and
      anonymize_client_ip of GET /control/querylog/config, and whether the shared
      IPMut masks a probe address *)
-  | SConf (enabled anon : bool) (qign : list (bytes * bool)) (obs : bool * bool * bool)
+  | SConf (enabled anon : bool) (qrules : list bytes) (qign : list bool) (obs : bool * bool * bool)
   (* POST /control/querylog_config (deprecated), each field present or absent *)
   | SLegacy (enabled anon : option bool) (obs : bool * bool * bool)
   | SFlush
   | SSearch (obs : list lentry).                        (* GET /control/querylog: name, client, client_id *)
 
 Inductive case :=
-  | CScen (anon refuse : bool) (qign sign : list (bytes * bool)) (macs : list (bytes * bytes))
+  (* [qrules] / [srules]: the configured ignore lists as given to
+     aghnet.NewIgnoreEngine (any letter case); [qign] / [sign]: Has(name) of the
+     real engines on the names of the universe (cross-check of the modelled
+     engine; the oracle when a list has an entry outside the modelled forms)
+     ([names] is the universe, the tables are aligned with it) *)
+  | CScen (anon refuse : bool) (names : list bytes) (qrules : list bytes) (qign : list bool)
+          (srules : list bytes) (sign : list bool) (macs : list (bytes * bytes))
           (evs : list sev)
           (obs_file : list lentry)                      (* querylog.json after the final flush, in order *)
           (obs_domains : list (bytes * N))              (* /control/stats top_queried_domains *)
@@ -41,12 +47,13 @@ Definition oracle (tbl : list (bytes * bool)) : bytes -> bool :=
   fun n => match bget n tbl with Some b => b | None => false end.
 
 Record rstate := {
-  r_ix : index; r_dhcp : list (addr * bytes); r_conf : qconf; r_qign : list (bytes * bool); r_st : store
+  r_ix : index; r_dhcp : list (addr * bytes); r_conf : qconf; r_qrules : list bytes;
+  r_qign : list (bytes * bool); r_st : store
 }.
 
-Definition env_of (refuse : bool) (sign : list (bytes * bool)) (r : rstate) : env :=
+Definition env_of (refuse : bool) (srules : list bytes) (sign : list (bytes * bool)) (r : rstate) : env :=
   {| e_ix := r_ix r; e_dhcp := fun a => zget a (r_dhcp r); e_anon := qc_mut (r_conf r); e_qlog_enabled := qc_enabled (r_conf r); e_refuse_any := refuse;
-     e_qign := oracle (r_qign r); e_sign := oracle sign |}.
+     e_qign := ignore_fn (r_qrules r) (oracle (r_qign r)); e_sign := ignore_fn srules (oracle sign) |}.
 
 Definition eqb_lentry (a b : lentry) : bool :=
   match a, b with
@@ -76,37 +83,39 @@ Definition conf_obs_ok (c : qconf) (obs : bool * bool * bool) : bool :=
   | (e, a, m) => Bool.eqb (qc_enabled c) e && Bool.eqb (qc_anon c) a && Bool.eqb (qc_mut c) m
   end.
 
-Definition step_ok refuse sign macs (r : rstate) (e : sev) : rstate * bool :=
+Definition step_ok (names : list bytes) refuse srules sign macs (r : rstate) (e : sev) : rstate * bool :=
   let mac_of := fun c => bget c macs in
   match e with
   | SQuery q =>
-      ({| r_ix := r_ix r; r_dhcp := r_dhcp r; r_conf := r_conf r; r_qign := r_qign r;
-          r_st := process (env_of refuse sign r) q (r_st r) |}, true)
+      ({| r_ix := r_ix r; r_dhcp := r_dhcp r; r_conf := r_conf r; r_qrules := r_qrules r; r_qign := r_qign r;
+          r_st := process (env_of refuse srules sign r) q (r_st r) |}, true)
   | SOp o =>
-      ({| r_ix := fst (step c08_cfg (r_ix r) o); r_dhcp := r_dhcp r; r_conf := r_conf r; r_qign := r_qign r;
+      ({| r_ix := fst (step c08_cfg (r_ix r) o); r_dhcp := r_dhcp r; r_conf := r_conf r; r_qrules := r_qrules r; r_qign := r_qign r;
           r_st := r_st r |}, true)
   | SDhcp t =>
-      ({| r_ix := r_ix r; r_dhcp := t; r_conf := r_conf r; r_qign := r_qign r; r_st := r_st r |}, true)
-  | SConf e a q obs =>
+      ({| r_ix := r_ix r; r_dhcp := t; r_conf := r_conf r; r_qrules := r_qrules r; r_qign := r_qign r; r_st := r_st r |}, true)
+  | SConf e a rules q0 obs =>
+      let q := combine names q0 in
       let c := conf_step (r_conf r) (CPut e a) in
-      ({| r_ix := r_ix r; r_dhcp := r_dhcp r; r_conf := c; r_qign := q; r_st := r_st r |}, conf_obs_ok c obs)
+      ({| r_ix := r_ix r; r_dhcp := r_dhcp r; r_conf := c; r_qrules := rules; r_qign := q; r_st := r_st r |},
+       conf_obs_ok c obs && table_agrees rules q)
   | SLegacy e a obs =>
       let c := conf_step (r_conf r) (CLegacy e a) in
-      ({| r_ix := r_ix r; r_dhcp := r_dhcp r; r_conf := c; r_qign := r_qign r; r_st := r_st r |}, conf_obs_ok c obs)
+      ({| r_ix := r_ix r; r_dhcp := r_dhcp r; r_conf := c; r_qrules := r_qrules r; r_qign := r_qign r; r_st := r_st r |}, conf_obs_ok c obs)
   | SFlush =>
-      ({| r_ix := r_ix r; r_dhcp := r_dhcp r; r_conf := r_conf r; r_qign := r_qign r;
+      ({| r_ix := r_ix r; r_dhcp := r_dhcp r; r_conf := r_conf r; r_qrules := r_qrules r; r_qign := r_qign r;
           r_st := flush (r_st r) |}, true)
   | SSearch obs =>
       (r, same_multiset eqb_lentry
-            (map canon_entry (search_report (env_of refuse sign r) mac_of (r_st r))) obs)
+            (map canon_entry (search_report (env_of refuse srules sign r) mac_of (r_st r))) obs)
   end.
 
-Fixpoint replay refuse sign macs (r : rstate) (evs : list sev) : rstate * bool :=
+Fixpoint replay (names : list bytes) refuse srules sign macs (r : rstate) (evs : list sev) : rstate * bool :=
   match evs with
   | [] => (r, true)
   | e :: rest =>
-      let '(r', ok) := step_ok refuse sign macs r e in
-      let '(r'', ok') := replay refuse sign macs r' rest in
+      let '(r', ok) := step_ok names refuse srules sign macs r e in
+      let '(r'', ok') := replay names refuse srules sign macs r' rest in
       (r'', ok && ok')
   end.
 
@@ -120,14 +129,16 @@ Definition final_ok (ev : env) mac_of (st : store) obs_file obs_domains (obs_cli
   counts_match eqb_bb (map stat_key (stats_clients ev mac_of st)) obs_clients &&
   (N.of_nat (length (st_stats st)) =? obs_total).
 
-Definition init_state anon qign : rstate :=
-  {| r_ix := empty_index; r_dhcp := []; r_conf := conf_init true anon; r_qign := qign; r_st := empty_store |}.
+Definition init_state anon qrules qign : rstate :=
+  {| r_ix := empty_index; r_dhcp := []; r_conf := conf_init true anon; r_qrules := qrules; r_qign := qign; r_st := empty_store |}.
 
 Definition case_ok (c : case) : bool :=
   match c with
-  | CScen anon refuse qign sign macs evs of od oc ot =>
-      let '(r, ok) := replay refuse sign macs (init_state anon qign) evs in
-      ok && final_ok (env_of refuse sign r) (fun c => bget c macs) (r_st r) of od oc ot
+  | CScen anon refuse names qrules qign0 srules sign0 macs evs of od oc ot =>
+      let qign := combine names qign0 in
+      let sign := combine names sign0 in
+      let '(r, ok) := replay names refuse srules sign macs (init_state anon qrules qign) evs in
+      ok && table_agrees qrules qign && table_agrees srules sign && final_ok (env_of refuse srules sign r) (fun c => bget c macs) (r_st r) of od oc ot
   | CFinder ops dhcp ids oq oc =>
       let ix := run c08_cfg ops empty_index in
       Bool.eqb (qlog_client_ignored ix (fun a => zget a dhcp) ids) oq &&
@@ -138,8 +149,10 @@ Definition mismatches := Base.Run.mismatches case_ok.
 
 Definition explain (c : case) :=
   match c with
-  | CScen anon refuse qign sign macs evs _ _ _ _ =>
-      let '(r, ok) := replay refuse sign macs (init_state anon qign) evs in
+  | CScen anon refuse names qrules qign0 srules sign0 macs evs _ _ _ _ =>
+      let qign := combine names qign0 in
+      let sign := combine names sign0 in
+      let '(r, ok) := replay names refuse srules sign macs (init_state anon qrules qign) evs in
       (ok, map canon_entry (st_file (r_st r) ++ st_mem (r_st r)), st_stats (r_st r))
   | CFinder ops dhcp ids _ _ =>
       let ix := run c08_cfg ops empty_index in
